@@ -49,10 +49,18 @@ pub fn reference(frags: &[Frag], widths: &[f64]) -> Vec<usize> {
 }
 
 fn check_frags(frags: &[Frag], widths: &[f64]) -> Outcome {
+    if widths.is_empty() {
+        // which width applies to an empty list is not part of C07's
+        // statement (C06 covers the shape of the result for it)
+        return Outcome::Skip("empty line-width list");
+    }
     let got: Vec<usize> = wrap_first_fit(frags, widths)
         .iter()
         .map(|l| l.len())
         .collect();
+    if got.iter().sum::<usize>() != frags.len() || (got.iter().any(|l| *l == 0) && !frags.is_empty()) {
+        return Outcome::Skip("wrap_first_fit did not return a partition (C06's statement)");
+    }
     let want = reference(frags, widths);
     ensure!(
         got == want,
@@ -171,11 +179,15 @@ fn check_text(par: &str, spec: &OptSpec, prior: bool) -> Outcome {
         .collect();
     let mut ok = false;
     let mut tiles = true;
+    let mut renders = false;
     for sentinel in [false, true] {
         let fr = Frags::new(par, &words, sentinel);
         if !fr.tiles {
             tiles = false;
             break;
+        }
+        if renders_somehow(&fr, &bodies) {
+            renders = true;
         }
         if greedy_partition_exists(&fr, &bodies, &rooms) {
             ok = true;
@@ -184,6 +196,9 @@ fn check_text(par: &str, spec: &OptSpec, prior: bool) -> Outcome {
     }
     if !tiles {
         return Outcome::Skip("fragments do not tile the paragraph (C11/C12's statement)");
+    }
+    if !ok && !renders {
+        return Outcome::Skip("output is not a rendering of the in-context fragments (C01/C05's statement)");
     }
     ensure!(
         ok,
@@ -254,7 +269,7 @@ impl Property for P {
         // fragment measures +- {0, 1/4, 1} (exact-fit boundaries)
         let wspec = prop::collection::vec(
             (any::<bool>(), any::<u16>(), any::<u16>(), 0usize..5, dyadic()),
-            0..=4,
+            1..=4,
         );
         let frag_case = (prop::collection::vec(frag_exact(), 0..=n), wspec).prop_map(
             |(frags, wspec)| {
